@@ -54,10 +54,11 @@ const (
 	kStallRead   // client-side Read blocks (ignoring deadlines) until the release time, then a timeout error
 	kStallWrite  // client-side Write blocks until the release time, then an error, nothing written
 	kStallServer // peer never answers; the client's own deadline (or the peer closing at the release time) ends it
+	kSlowDial    // the Dial hook returns a working connection only at the release time (after the deadline)
 )
 
 var kindNames = map[kind]string{kOK: "ok", kDialErr: "dialerr", kWriteEarly: "werr-early", kWriteLate: "werr-late",
-	kEOF: "eof", kReadTimeout: "rtimeout", kBig: "big", kStallRead: "stall-read", kStallWrite: "stall-write", kStallServer: "stall-server"}
+	kEOF: "eof", kReadTimeout: "rtimeout", kBig: "big", kStallRead: "stall-read", kStallWrite: "stall-write", kStallServer: "stall-server", kSlowDial: "slow-dial"}
 
 func (k kind) String() string { return kindNames[k] }
 
@@ -106,6 +107,8 @@ type caseCfg struct {
 	Chunked    bool          // stream without size / oversized body chunked
 	StallExtra time.Duration // deadline family: stall ends at firstAttemptStart + Timeout + StallExtra
 	SetTimeout bool          // the timeout is set once with req.SetTimeout and the request is sent with plain Do
+	TCP        bool          // connections are real loopback TCP connections (a write after its deadline fails there)
+	ConnWait   time.Duration // MaxConnWaitTimeout of the client
 }
 
 // reused is one *Request (and Response) that several consecutive calls of a case share. It is
@@ -123,7 +126,8 @@ func (c caseCfg) describe() map[string]any {
 	}
 	return map[string]any{"faults": s, "method": c.Method, "MaxIdemponentCallAttempts": c.MaxAtt, "callback": cbNames[c.CB],
 		"body": bodyNames[c.Body], "via_client": c.ViaClient, "warm_pooled_conn": c.Warm, "timeout_ms": c.Timeout.Milliseconds(),
-		"deadline_api": c.DeadlineFn, "cut_mode": c.CutMode, "chunked": c.Chunked, "timeout_via_SetTimeout_and_plain_Do": c.SetTimeout}
+		"deadline_api": c.DeadlineFn, "cut_mode": c.CutMode, "chunked": c.Chunked, "timeout_via_SetTimeout_and_plain_Do": c.SetTimeout,
+		"loopback_tcp": c.TCP, "max_conn_wait_ms": c.ConnWait.Milliseconds()}
 }
 
 type attempt struct {
@@ -216,6 +220,26 @@ func (n *caseNet) dial(addr string) (net.Conn, error) {
 		// so the case is ended here: a dial error is never retried.
 		return nil, errInjectedDial
 	}
+	if a.kind == kSlowDial {
+		// time spent acquiring the connection: the hook hands out a perfectly good connection, but late
+		sleepUntil(n.releaseTime())
+		n.mu.Lock()
+		a.released = true
+		n.mu.Unlock()
+	}
+	if n.cfg.TCP {
+		c, err := net.Dial("tcp", loopback().ln.Addr().String())
+		if err != nil {
+			return nil, err
+		}
+		fc := &faultConn{Conn: c, n: n, cur: a}
+		n.mu.Lock()
+		n.conns = append(n.conns, fc)
+		n.mu.Unlock()
+		n.wg.Add(1)
+		loopback().register(c.LocalAddr().String(), fc)
+		return fc, nil
+	}
 	c, s := net.Pipe()
 	fc := &faultConn{Conn: c, n: n, cur: a, srv: s}
 	n.mu.Lock()
@@ -224,6 +248,67 @@ func (n *caseNet) dial(addr string) (net.Conn, error) {
 	n.wg.Add(1)
 	go n.serve(s, fc)
 	return fc, nil
+}
+
+// tcpPeer is the one loopback listener behind all TCP cases. An accepted connection is matched to the
+// fake connection of its case by the client's local address, registered by the Dial hook before the
+// connection is handed to fasthttp (so before any byte can be written on it).
+type tcpPeer struct {
+	ln  net.Listener
+	mu  sync.Mutex
+	reg map[string]*faultConn
+}
+
+var (
+	tcpOnce sync.Once
+	tcpSrv  *tcpPeer
+)
+
+func loopback() *tcpPeer {
+	tcpOnce.Do(func() {
+		ln, err := net.Listen("tcp", "127.0.0.1:0")
+		if err != nil {
+			panic("c19 harness: cannot listen on loopback: " + err.Error())
+		}
+		tcpSrv = &tcpPeer{ln: ln, reg: map[string]*faultConn{}}
+		go func() {
+			for {
+				c, err := ln.Accept()
+				if err != nil {
+					return
+				}
+				go tcpSrv.handle(c)
+			}
+		}()
+	})
+	return tcpSrv
+}
+
+func (t *tcpPeer) register(local string, fc *faultConn) {
+	t.mu.Lock()
+	t.reg[local] = fc
+	t.mu.Unlock()
+}
+
+func (t *tcpPeer) handle(c net.Conn) {
+	br := brPool.Get().(*bufio.Reader)
+	br.Reset(c)
+	br.Peek(1) // returns when the client has written something or has gone away: the registration is done by then
+	var fc *faultConn
+	for i := 0; i < 400 && fc == nil; i++ {
+		t.mu.Lock()
+		fc = t.reg[c.RemoteAddr().String()]
+		delete(t.reg, c.RemoteAddr().String())
+		t.mu.Unlock()
+		if fc == nil {
+			time.Sleep(5 * time.Millisecond)
+		}
+	}
+	if fc == nil {
+		c.Close()
+		return
+	}
+	fc.n.serveBR(c, br, fc)
 }
 
 // faultConn is the client end of one fake connection.
@@ -400,10 +485,14 @@ func (m *mix) Intn(n int) int {
 
 // serve is the tag server of one connection (peer side).
 func (n *caseNet) serve(s net.Conn, fc *faultConn) {
-	defer n.wg.Done()
-	defer s.Close()
 	br := brPool.Get().(*bufio.Reader)
 	br.Reset(s)
+	n.serveBR(s, br, fc)
+}
+
+func (n *caseNet) serveBR(s net.Conn, br *bufio.Reader, fc *faultConn) {
+	defer n.wg.Done()
+	defer s.Close()
 	defer func() { br.Reset(nil); brPool.Put(br) }()
 	for {
 		h, err := readHead(br)
@@ -425,7 +514,7 @@ func (n *caseNet) serve(s net.Conn, fc *faultConn) {
 		}
 		isHead := h.Method == "HEAD"
 		switch k {
-		case kOK:
+		case kOK, kSlowDial:
 			resp := okResp
 			if isHead {
 				resp = okRespHead
@@ -564,12 +653,12 @@ func runCaseOn(cfg caseCfg, sh *reused) (o obs) {
 	if cfg.ViaClient {
 		c := &fasthttp.Client{Dial: n.dial, MaxIdemponentCallAttempts: cfg.MaxAtt, MaxResponseBodySize: maxRespBody,
 			RetryIf: rc.retryIf, RetryIfErr: rc.retryIfErr, RetryIfErrUpstream: rc.retryUp, MaxIdleConnDuration: idle,
-			ReadBufferSize: 1024, WriteBufferSize: 1024}
+			ReadBufferSize: 1024, WriteBufferSize: 1024, MaxConnWaitTimeout: cfg.ConnWait}
 		d, closeIdle = c, c.CloseIdleConnections
 	} else {
 		hc := &fasthttp.HostClient{Addr: "c19.test:80", Dial: n.dial, MaxIdemponentCallAttempts: cfg.MaxAtt, MaxResponseBodySize: maxRespBody,
 			RetryIf: rc.retryIf, RetryIfErr: rc.retryIfErr, RetryIfErrUpstream: rc.retryUp, MaxIdleConnDuration: idle,
-			ReadBufferSize: 1024, WriteBufferSize: 1024}
+			ReadBufferSize: 1024, WriteBufferSize: 1024, MaxConnWaitTimeout: cfg.ConnWait}
 		d, closeIdle = hc, hc.CloseIdleConnections
 	}
 	var req *fasthttp.Request
@@ -781,7 +870,12 @@ func judge(cfg caseCfg, o obs) (vs []violation) {
 	}
 	if cfg.Timeout > 0 && !o.ResetAsked {
 		for _, a := range o.attempts {
-			if a.released && (a.kind == kStallRead || a.kind == kStallWrite || a.kind == kStallServer) && a.idx < len(o.attempts)-1 {
+			if a.released && a.kind == kSlowDial && a.headSeen {
+				vs = append(vs, violation{"transmitted-after-deadline-on-late-connection", fmt.Sprintf("request timeout %v: the connection for attempt #%d was handed out by Dial only after the deadline (%v after the first attempt began), yet the peer received the request on it; no callback asked for a reset",
+					cfg.Timeout, a.idx, cfg.Timeout+cfg.StallExtra)})
+				break
+			}
+			if a.released && (a.kind == kStallRead || a.kind == kStallWrite || a.kind == kStallServer || a.kind == kSlowDial) && a.idx < len(o.attempts)-1 {
 				nx := o.attempts[a.idx+1]
 				vs = append(vs, violation{"attempt-started-after-deadline", fmt.Sprintf("request timeout %v: attempt #%d stalled until after the deadline, attempt #%d was still started %v after the first attempt began; no callback asked for a reset",
 					cfg.Timeout, a.idx, nx.idx, nx.start.Sub(o.attempts[0].start))})
@@ -918,8 +1012,47 @@ func reuseCases(thorough bool) [][]caseCfg {
 	return out
 }
 
+// slowDialCases (family D): the time spent acquiring the connection counts against the request timeout.
+// Over real loopback TCP; an attempt (the first, or the retry after fast retriable faults) gets its
+// connection from the Dial hook only after the deadline. The request must not reach the peer on it.
+func slowDialCases(thorough bool) []caseCfg {
+	type mc struct {
+		m  string
+		cb int
+	}
+	mcs := []mc{{"GET", cbNone}, {"PUT", cbNone}, {"POST", cbRetryIfTrue}, {"GET", cbErrRetry}, {"DELETE", cbUpRetry}}
+	pres := [][]kind{{kEOF}, {kWriteLate}, {kEOF, kEOF}, {}}
+	timeouts := []time.Duration{40 * time.Millisecond}
+	if thorough {
+		timeouts = []time.Duration{20 * time.Millisecond, 40 * time.Millisecond, 90 * time.Millisecond}
+	}
+	var out []caseCfg
+	for _, to := range timeouts {
+		for _, p := range pres {
+			for _, x := range mcs {
+				for api := 0; api < 3; api++ {
+					for v := 0; v < 4; v++ {
+						seq := append(append([]kind(nil), p...), kSlowDial, kOK)
+						c := caseCfg{Seq: seq, Method: x.m, CB: x.cb, MaxAtt: 6, Timeout: to, StallExtra: to/2 + 15*time.Millisecond, TCP: true,
+							DeadlineFn: api == 1, SetTimeout: api == 2, ViaClient: v&1 == 1, Body: len(out) % 2}
+						if v&2 == 2 {
+							c.ConnWait = time.Second
+						}
+						out = append(out, c)
+					}
+				}
+			}
+		}
+	}
+	// controls without a request timeout: the late connection is used (the cases above are not vacuous)
+	for _, x := range []mc{{"GET", cbNone}, {"POST", cbRetryIfTrue}} {
+		out = append(out, caseCfg{Seq: []kind{kEOF, kSlowDial, kOK}, Method: x.m, CB: x.cb, MaxAtt: 6, StallExtra: 5 * time.Millisecond, TCP: true})
+	}
+	return out
+}
+
 func classOf(c caseCfg) string {
-	return fmt.Sprintf("%v|%s|%d|%d|%d|%v|%v|%v", c.Seq, c.Method, c.MaxAtt, c.CB, c.Body, c.ViaClient, c.Warm, c.Timeout > 0)
+	return fmt.Sprintf("%v|%s|%d|%d|%d|%v|%v|%v|%v%v%v%v", c.Seq, c.Method, c.MaxAtt, c.CB, c.Body, c.ViaClient, c.Warm, c.Timeout > 0, c.TCP, c.ConnWait > 0, c.SetTimeout, c.DeadlineFn)
 }
 
 func TestC19(t *testing.T) {
@@ -953,13 +1086,15 @@ func TestC19(t *testing.T) {
 	}
 	dl := deadlineCases(r.Thorough())
 	ru := reuseCases(r.Thorough())
-	total := nEnum + len(dl) + len(ru)
+	sd := slowDialCases(r.Thorough())
+	total := nEnum + len(dl) + len(ru) + len(sd)
 
-	r.Rule(fmt.Sprintf("family A (exhaustive): every fault sequence of length %d over {ok, dial error, write error before the head is complete, write error after the complete head, EOF before any response byte, read timeout, oversized response body} (attempts beyond the sequence succeed) x 7 methods x MaxIdemponentCallAttempts x 10 callback configurations x {no body, byte body, body stream} (%s); per case pseudo-random flavours (HostClient or Client, cold or pooled first connection, cut position of the early write error, chunked or sized stream, far-away request timeout via DoTimeout/DoDeadline). family B: a stall that ends after the request deadline at attempt 1-3 x 3 stall kinds x 11 method/callback pairs x {DoTimeout,DoDeadline} x {HostClient,Client}, plus controls. family C: 2-3 consecutive plain Do calls on ONE *Request whose timeout was set once with req.SetTimeout (DoTimeout/DoDeadline would re-assign it): the first call leaves Do through success, a non-retriable error, the attempt limit or - 9 of 13 shapes - the check 'deadline passed before the next attempt could start' (fast faults, then a stall past the deadline with a retry allowed); every later call is stalled past its own deadline and judged like family B; x 6 method/callback pairs x {HostClient,Client}. distinct = (sequence, method, limit, callback, body, flavours); non-trivial = the first attempt is faulted", maxLen, exhaustiveNote))
+	r.Rule(fmt.Sprintf("family A (exhaustive): every fault sequence of length %d over {ok, dial error, write error before the head is complete, write error after the complete head, EOF before any response byte, read timeout, oversized response body} (attempts beyond the sequence succeed) x 7 methods x MaxIdemponentCallAttempts x 10 callback configurations x {no body, byte body, body stream} (%s); per case pseudo-random flavours (HostClient or Client, cold or pooled first connection, cut position of the early write error, chunked or sized stream, far-away request timeout via DoTimeout/DoDeadline). family B: a stall that ends after the request deadline at attempt 1-3 x 3 stall kinds x 11 method/callback pairs x {DoTimeout,DoDeadline} x {HostClient,Client}, plus controls. family C: 2-3 consecutive plain Do calls on ONE *Request whose timeout was set once with req.SetTimeout (DoTimeout/DoDeadline would re-assign it): the first call leaves Do through success, a non-retriable error, the attempt limit or - 9 of 13 shapes - the check 'deadline passed before the next attempt could start' (fast faults, then a stall past the deadline with a retry allowed); every later call is stalled past its own deadline and judged like family B; x 6 method/callback pairs x {HostClient,Client}. family D (real loopback TCP): 0-2 fast retriable faults, then an attempt whose connection the Dial hook hands out only after the request deadline x 5 method/callback pairs x {DoTimeout, DoDeadline, SetTimeout+Do} x {HostClient,Client} x MaxConnWaitTimeout {0,1s}: the request must not reach the peer on that connection, nor may another attempt follow. distinct = (sequence, method, limit, callback, body, flavours); non-trivial = the first attempt is faulted", maxLen, exhaustiveNote))
 	r.Assume("a transmission is counted when the peer of the fake connection has received the complete request head (own bufio parser); each dial and each first write on a pooled connection is an attempt start")
 	r.Assume("a retry of a GET/HEAD/PUT after a callback said 'no' is outside the property statement: counted as event retry_despite_callback_no, not judged")
 	r.Assume("deadline family: the stall ends at (start of first attempt + timeout + margin) on the monotonic clock; the first attempt starts after Do computed its deadline, so the end of the stall is after the deadline regardless of load; cases where a callback asked for a reset are not judged (skipped_deadline_reset)")
 	r.Assume("family C: the request is not touched between the calls; each call is judged against the timeout given to req.SetTimeout, counted from the start of that call's first attempt (which is after that Do computed its deadline)")
+	r.Assume("family D: the late connection is handed out at (start of first attempt + timeout + margin), i.e. after the deadline; a request head received on it can only have been written after that instant. Real TCP is used because a write whose deadline has passed fails there. Waiting in the pool queue (MaxConnWaitTimeout with a saturated pool) is not generated: its wait is itself capped by the request timeout, so a late hand-over cannot be produced without comparing clocks")
 	r.Assume("HEAD + oversized response: the body is never read, so it is a success and not judged as ErrBodyTooLarge")
 	r.Set("exhaustive_fault_sequences_len", maxLen)
 	r.Set("exhaustive_scope", exhaustiveNote)
@@ -967,9 +1102,11 @@ func TestC19(t *testing.T) {
 	r.Set("enumerated_cases", nEnum)
 	r.Set("deadline_cases", len(dl))
 	r.Set("reused_request_cases", len(ru))
+	r.Set("slow_dial_cases", len(sd))
 
 	var diffMu sync.Mutex
 	var diffs []map[string]any
+	var notReached []map[string]any
 
 	var hung atomic.Int32
 	var handleOn func(i int, cfg caseCfg, ev func(string, int), sh *reused, call int) obs
@@ -1118,8 +1255,44 @@ func TestC19(t *testing.T) {
 		fasthttp.ReleaseRequest(sh.req)
 		fasthttp.ReleaseResponse(sh.resp)
 	})
+	// family D: slow connection acquisition over loopback TCP
+	mon.Parallel(len(sd), 64, func(k int) {
+		i := nEnum + len(dl) + len(ru) + k
+		if !r.Want(i) {
+			return
+		}
+		o := handleOn(i, sd[k], r.Event, nil, 0)
+		if o.Hung {
+			return
+		}
+		reached := false
+		for _, a := range o.attempts {
+			if a.kind == kSlowDial {
+				reached = true
+			}
+		}
+		if !reached {
+			r.Event("late_connection_attempt_not_reached", 1)
+			diffMu.Lock()
+			if len(notReached) < 4 {
+				notReached = append(notReached, map[string]any{"cfg": sd[k].describe(), "observed": o})
+			}
+			diffMu.Unlock()
+		}
+		for _, a := range o.attempts {
+			if a.kind == kSlowDial && a.released {
+				switch {
+				case sd[k].Timeout == 0 && a.headSeen:
+					r.Event("control_late_connection_was_used", 1)
+				case sd[k].Timeout > 0 && !a.headSeen && !o.ResetAsked:
+					r.Event("late_connections_left_unused", 1)
+				}
+			}
+		}
+	})
 	diffMu.Lock()
 	r.Set("model_differences_sample", diffs)
+	r.Set("late_connection_attempt_not_reached_sample", notReached)
 	diffMu.Unlock()
 	if !r.Replaying() {
 		r.Require("transmissions_counted", total/2)
@@ -1130,5 +1303,7 @@ func TestC19(t *testing.T) {
 		r.Require("control_stall_was_retried", 1)
 		r.Require("reused_request_first_call_left_through_deadline_check", len(ru)/3)
 		r.Require("reused_request_later_calls_judged", len(ru)/2)
+		r.Require("late_connections_left_unused", len(sd)/4)
+		r.Require("control_late_connection_was_used", 1)
 	}
 }
